@@ -35,6 +35,7 @@ type Obligation struct {
 	Ms       int64
 	Output   string
 	FirstTry string // solver output of the first attempt when the obligation was retried
+	RetSite  int    // cover:return: ordinal of the return statement (source order)
 	IsCover  bool   // cover query: expected sat
 }
 
@@ -56,6 +57,7 @@ type funcRun struct {
 	inputs       []string
 	lets         map[string]Value
 	lettypes     map[string]types.Type
+	retOrd       map[token.Pos]int // return statement -> ordinal in source order
 	entrySt      *State       // state right after the preconditions (used by cut-point loops)
 	cutDone      map[int]bool // cut-point loop headers already explored
 }
